@@ -46,7 +46,45 @@ def py_valid(schema, how):
     return True
 
 
+def ron_doc(order, label='Alpha'):
+    """a Zerv RON document with the given precedence order (the rest fixed): what `--output-format zerv` prints"""
+    po = '' if order is None else ', precedence_order: [%s]' % ', '.join(order)
+    return ('(schema: (core: [var(Major), var(Minor), var(Patch)], extra_core: [var(Epoch), var(PreRelease), var(Post), var(Dev)], build: [var(BumpedBranch)]%s), '
+            'vars: (major: Some(1), minor: Some(2), patch: Some(3), pre_release: Some((label: %s, number: Some(1))), bumped_branch: Some("main")))' % (po, label))
+
+
+def confirm_ser(v):
+    """two documents that differ only in what the counterexample says is lost: parsed by zerv, emitted by zerv"""
+    d = native.driver()
+    if v.get('what') == 'precedence_order':
+        ra, rb = d.call(op='ron_roundtrip', text=native.cps(ron_doc(v['order_a']))), d.call(op='ron_roundtrip', text=native.cps(ron_doc(v['order_b'])))
+        if not (ra.get('ok') and rb.get('ok')):
+            return False, 'precedence orders %s / %s: documents not accepted natively (%s / %s)' % (v['orders'][0], v['orders'][1], ra.get('err'), rb.get('err'))
+        lossy = ra['object'] != rb['object'] and ra['emitted'] == rb['emitted']
+        unstable = ra['object'] != ra.get('object2') or rb['object'] != rb.get('object2')
+        return lossy or unstable, 'precedence orders %s vs %s: objects %s, emitted documents %s, parse-back %s' % (
+            v['orders'][0], v['orders'][1], 'differ' if ra['object'] != rb['object'] else 'equal', 'identical' if ra['emitted'] == rb['emitted'] else 'differ',
+            'differs from the object' if unstable else 'identical')
+    return False, 'serialisation counterexample of kind %r has no native replay' % v.get('what')
+
+
+def roundtrip_validation(ck):
+    """differential: the real ron round trip of a handful of documents (every precedence order of the menu) is the identity"""
+    d = native.driver()
+    for name, order in c12.prec_orders(ck.tier) + [('absent', None)]:
+        for label in ('Alpha', 'Rc'):
+            r = d.call(op='ron_roundtrip', text=native.cps(ron_doc(order, label)))
+            ck.validated += 1
+            if not r.get('ok') or 'panic' in r:
+                ck.fail_inconclusive('native RON document for order %s not accepted: %s' % (name, r))
+            elif r['object'] != r.get('object2') or r['emitted'] != r.get('emitted2'):
+                ck.confirmed('roundtrip:' + ('precedence_order' if order else 'document'), 'emit -> parse -> emit is not the identity for precedence order %s: %s' % (name, r.get('reparse_err') or 'objects differ'),
+                             dict(clause='not_injective', how='ser', what='precedence_order', orders=[name, name], order_a=order, order_b=order))
+
+
 def confirm(v):
+    if v.get('clause') in ('not_injective', 'duplicate_key') or v.get('what') == 'serialize':
+        return confirm_ser(v)
     how = v['how'] if v['how'] != 'zerv_new' else 'new'
     r = native.driver().call(op='schema_check', schema=v['schema'], how=how)
     desc = '%s %s -> native %s' % (v['how'], v['schema'], {k: r.get(k) for k in ('ok', 'err', 'panic')})
@@ -62,7 +100,9 @@ def main():
     quick = ck.tier == 'quick'
     ck.bounds = dict(schemas='core <= %d, extra-core <= %d, build <= %d components; each plain component is ANY of the 17 variables (a solver variable), plus literal / timestamp mixes with symbolic pattern text of <= 4 chars' % ((3, 3, 1) if quick else (4, 4, 2)),
                      entry_points=['ZervSchema::new', 'Zerv::new on a field-wise assembled schema', 'set_core', 'set_extra_core', 'set_build'], configurations=len(args))
-    ck.outside = ['byte-identical RON round trips and malformed-document handling: serde / ron library code has no MIR in the crate and CBMC cannot get through its string handling (measured, DESIGN §2)',
+    ck.bounds['serialisation'] = 'Zerv objects over one 3+5+3 schema (all component kinds; literal contents symbolic), every ZervVars field with symbolic presence and contents (numbers any u64, texts 1 char), %d pairs of precedence orders (default, adjacent swaps, reversed, prefix, empty)' % len(c12.ser_args(ck.tier))
+    ck.outside = ['the ron printer/parser and the derived Deserialize impls: decided is only that zerv\'s Serialize impls (executed from MIR against a recording serializer) never map two different objects to one serde document — a necessary condition of the lossless round trip; the real emit/parse/emit round trip is run natively on a few documents per run as validation',
+                  'malformed-document handling: serde / ron library code has no MIR in the crate and CBMC cannot get through its string handling (measured, DESIGN §2)',
                   'pipe equivalence through the zerv binary', 'custom(...) components', 'longer schemas']
     ck.assumptions = ['python models of Vec/HashSet/IndexMap/iterator functions', 'oracle = placement rules transcribed from the statement as a z3 formula over the variable choices']
     ex = engine.explore('c12', 'path', args, jobs=ck.jobs, deadline=time.time() + (600 if quick else 3600))
@@ -73,6 +113,14 @@ def main():
         ck.validated += 1
         if 'panic' in r or bool(r.get('ok')) != bool(wt['accepted']):
             ck.validation_mismatch.append(dict(schema=wt['schema'], how=wt['how'], msym=wt['accepted'], native=r))
+    sargs = c12.ser_args(ck.tier)
+    ex = engine.explore('c12', 'path_ser', sargs, jobs=ck.jobs, deadline=time.time() + (600 if quick else 1800))
+    scands = ck.absorb('serialisation (zerv\'s Serialize impls from MIR, recording serializer) is injective: different objects never give the same document', ex,
+                       bounds=dict(configs=len(sargs)), expect_tags=['serialized', 'documents_differ', 'documents_can_coincide', 'injective'])
+    for v in scands:
+        v.setdefault('how', 'ser')
+    cands += scands
+    roundtrip_validation(ck)
     seen = set()
     for v in cands:
         key = json.dumps(v, sort_keys=True, default=str)
